@@ -214,7 +214,9 @@ SuciChecks(v, u, who) ==
               ELSE {who \o ": SUCI identifies IMSI " \o ToString(d.mcc \o d.mnc \o d.msin) \o " but UE " \o ToString(u) \o " of this configuration is " \o ToString(ExpectedImsi(u))})
 
 \* result of handling one uplink message: [amf, out: Seq(octets) downlink messages, complaints: set of strings, note]
-Res(amf, out, complaints, note) == [amf |-> amf, out |-> out, complaints |-> complaints, note |-> note]
+Res(amf, out, complaints, note) == [amf |-> amf, out |-> out, complaints |-> complaints, note |-> note, abs |-> [u |-> 0, cnt |-> -1]]
+\* abstraction of the handled message for TraceStg: the UE (in order of first appearance) and the NAS COUNT of a protected message
+Abs(r, u, cnt) == [r EXCEPT !.abs = [u |-> u, cnt |-> cnt]]
 SetCtx(amf, i, c) == [amf EXCEPT !.ues[i] = c]
 
 HandleNgSetup(amf, t) ==
@@ -233,7 +235,7 @@ HandleNgSetup(amf, t) ==
        "NGSetupRequest")
 
 \* Registration Request in an InitialUEMessage: a new UE appears
-HandleRegistrationRequest(amf, t, m) ==
+HandleRegistrationRequest0(amf, t, m) ==
    LET u == Len(amf.ues) + 1
        who == "UE" \o ToString(u) \o " RegistrationRequest" IN
    IF u > Len(Scn.ues) THEN Res(amf, <<>>, {who \o ": more UEs than the scenario provides choices for"}, "RegistrationRequest")
@@ -259,12 +261,13 @@ HandleRegistrationRequest(amf, t, m) ==
             \cup (IF dup = 0 THEN {} ELSE {who \o ": RAN-UE-NGAP-ID already used by UE " \o ToString(dup)}),
             "RegistrationRequest")
 
-\* an uplink NAS message of a UE that has a context
-HandleUeNas(amf, i, t, ngapMsg) ==
+HandleRegistrationRequest(amf, t, m) == Abs(HandleRegistrationRequest0(amf, t, m), Len(amf.ues) + 1, -1)
+
+\* an uplink NAS message of a UE that has a context; o = UlOpen of its NAS PDU
+HandleUeNasO(amf, i, t, ngapMsg, o) ==
    LET c == amf.ues[i]
        ch == Choice(c.u)
        who0 == "UE" \o ToString(c.u)
-       o == UlOpen(c.sec, NasOf(t), who0)
        base == WfMsg(t, ngapMsg, who0 \o " " \o ngapMsg) \cup IdChecks(t, c, who0 \o " " \o ngapMsg) \cup UliChecks(t, who0 \o " " \o ngapMsg) IN
    IF ~o.ok THEN Res(amf, <<>>, base \cup o.complaints, "undecodable NAS")
    ELSE LET d == NasDecode(o.plain) IN
@@ -336,12 +339,16 @@ HandleUeNas(amf, i, t, ngapMsg) ==
                    base \cup o.complaints \cup stMust({"registered"}) \cup hdrMust({2}) \cup SuciChecks(m.mand[2], c.u, who), m.name)
           [] OTHER -> Res(SetCtx(amf, i, c1), <<>>, base \cup o.complaints \cup {who \o ": unexpected NAS message"}, m.name)
 
+HandleUeNas(amf, i, t, ngapMsg) ==
+   LET c == amf.ues[i]
+       o == UlOpen(c.sec, NasOf(t), "UE" \o ToString(c.u)) IN
+   Abs(HandleUeNasO(amf, i, t, ngapMsg, o), c.u, IF o.ok THEN o.count ELSE -1)
+
 \* Service Request in an InitialUEMessage for a UE whose connection is still up (assumption A3)
-HandleServiceRequest(amf, i, t) ==
+HandleServiceRequestO(amf, i, t, o) ==
    LET c == amf.ues[i]
        ch == Choice(c.u)
-       who == "UE" \o ToString(c.u) \o " ServiceRequest"
-       o == UlOpen(c.sec, NasOf(t), who) IN
+       who == "UE" \o ToString(c.u) \o " ServiceRequest" IN
    IF ~o.ok THEN Res(amf, <<>>, o.complaints, "ServiceRequest")
    ELSE LET d == NasDecode(o.plain)
             sa == DlProtect(o.sec, NasEncode(NasServiceAccept(ch)), 2)
@@ -354,6 +361,11 @@ HandleServiceRequest(amf, i, t) ==
             \cup (IF c.sess = "active" THEN {} ELSE {who \o ": service requested without an established PDU session (session is " \o c.sess \o ")"}),
             "ServiceRequest")
 
+HandleServiceRequest(amf, i, t) ==
+   LET c == amf.ues[i]
+       o == UlOpen(c.sec, NasOf(t), "UE" \o ToString(c.u) \o " ServiceRequest") IN
+   Abs(HandleServiceRequestO(amf, i, t, o), c.u, IF o.ok THEN o.count ELSE -1)
+
 \* embedded response transfers: the gNB's GTP address must be the configured one
 TransferAddrOk(ies, listId, fieldName) ==
    LET f == FindIe(ies, listId) IN
@@ -364,7 +376,7 @@ TransferAddrOk(ies, listId, fieldName) ==
 PsiInList(ies, listId) == LET f == FindIe(ies, listId) IN
                           IF ~f.found THEN <<>> ELSE LET p == Named(IeVal(f.ie), "PDUSessionID") IN Tup([k \in 1..Len(p) |-> p[k].v.n])
 
-HandleNgapResponse(amf, i, t, kind) ==
+HandleNgapResponse0(amf, i, t, kind) ==
    LET c == amf.ues[i]
        who == "UE" \o ToString(c.u) \o " " \o kind
        ies == PduIEs(t)
@@ -396,6 +408,8 @@ HandleNgapResponse(amf, i, t, kind) ==
           Res(SetCtx(amf, i, [c EXCEPT !.st = "gone", !.await = @ \ {"CtxRelCpl"}]), <<>>,
               WfMsg(t, kind, who) \cup ids
               \cup (IF "CtxRelCpl" \in c.await THEN {} ELSE {who \o ": no UE Context Release Command outstanding"}), kind)
+
+HandleNgapResponse(amf, i, t, kind) == Abs(HandleNgapResponse0(amf, i, t, kind), amf.ues[i].u, -1)
 
 \* ------------------------------------------------------------------------------------------------------------------
 \* one uplink message
